@@ -257,6 +257,18 @@ def spelling_identity():
     return sorted(rows)
 
 
+def cfunction_dtypes():
+    """the Python-side guard in front of the compiled helpers (None when the guard does not exist)"""
+    try:
+        from numpoly.construct import from_attributes as fa
+        guard = getattr(fa, "CFUNCTION_DTYPES", None)
+        if guard is None:
+            return None
+        return [str(numpy.dtype(d)) for d in guard]
+    except Exception:  # noqa: BLE001
+        return None
+
+
 def tables() -> dict:
     """All extracted facts as plain Python data (also used by the harness)."""
     from numpoly import dispatch, baseclass, option
@@ -276,6 +288,7 @@ def tables() -> dict:
         "promotion": promotion_table(),
         "operatorRouting": operator_routing(),
         "spellingIdentity": spelling_identity(),
+        "cfunctionDtypes": cfunction_dtypes(),
     }
     try:
         from numpoly.array_function import savetxt as _st
@@ -313,6 +326,10 @@ def csetDtypes? : Option (List DType) := {dts(t['csetDtypes'])}
 def caddDtypes? : Option (List DType) := {dts(t['caddDtypes'])}
 /-- does the final `else` of the switch *raise* (it used to construct a ValueError without raising it) -/
 def csetElseRaises : Bool := {'true' if t['csetRaises'] else 'false'}
+
+/-- `CFUNCTION_DTYPES` of construct/from_attributes.py: the dtypes for which the compiled writer is used at all
+(`none`: no such guard in the source — every dtype goes to the compiled writer) -/
+def cfunctionDtypes? : Option (List DType) := {dts(t['cfunctionDtypes'])}
 
 /-- `kind=` of the argsort call in utils/glexsort.py -/
 def glexsortArgsortKind : SortKind := {kind}
